@@ -4,6 +4,7 @@
     the tree is the ordered choice: it restores the saved position between alternatives, so it needs
     two of them - which the front end and the -switch pass guarantee ([alt2]). *)
 From PegV Require Import Base.Tac Spec.Syntax Model.Analyses Model.Optimize Model.Emit Proofs.EmitWF.
+From PegV Require Export Model.Premises.
 Local Open Scope nat_scope.
 
 Fixpoint uses1 (x : code) : list (bool * nat) :=
@@ -38,16 +39,7 @@ Fixpoint du1 (x : code) : bool :=
   end.
 Definition du (c : list code) : bool := du_list (fun y => du1 y) c.
 
-(** every ordered choice has at least two alternatives *)
-Fixpoint alt2 (e : expr) : bool :=
-  match e with
-  | ESeq es => forallb alt2 es
-  | EAlt es => Nat.leb 2 (length es) && forallb alt2 es
-  | EAnd e1 | ENot e1 | EQuery e1 | EStar e1 | EPlus e1 | EPush e1 => alt2 e1
-  | ESwitch cs d => forallb (fun c => alt2 (snd c)) cs && alt2 d
-  | _ => true
-  end.
-Definition grammar_alt2 (g : grammar) : Prop := forall r b, nth_error g r = Some (RBody b) -> alt2 b = true.
+(** every ordered choice has at least two alternatives: [alt2], [grammar_alt2] (Model/Premises.v) *)
 
 Lemma uses_app a b : uses (a ++ b) = uses a ++ uses b.
 Proof. unfold uses. apply flat_map_app. Qed.
@@ -331,7 +323,6 @@ Proof.
 Qed.
 
 (** executable form, evaluated per grammar *)
-Definition grammar_alt2_b (g : grammar) : bool := forallb (fun rb => match rb with RBody b => alt2 b | _ => true end) g.
 Lemma grammar_alt2_b_ok g : grammar_alt2_b g = true -> grammar_alt2 g.
 Proof.
   intros H r b Hr. unfold grammar_alt2_b in H. rewrite forallb_forall in H. apply (H (RBody b)). eapply nth_error_In; eauto.
